@@ -53,7 +53,7 @@ def forbidden_hits(lean_dir, roots):
 
 # theorem modules that serve a second property as well (still only when registered)
 ALSO = {"C20": ["C03b", "C18d", "P1", "P1b", "P1c"], "C08": ["C15b", "P2b"], "C10": ["C06b", "P1", "P1b"], "C12": ["C14b", "P1", "P1b", "P1c", "P2c", "P2d", "P2e"],
-        "C04": ["C05c", "C15d"], "C06": ["P1"], "C03": ["P1"], "C11": ["C02Q", "C10d"], "C17": ["P2", "P2b", "P2d", "P2e", "L2"], "C13": ["C10b", "P2", "P2c"], "C19": ["L1", "L2"], "C14": ["P2d", "P1c", "P2e"], "C02": ["L1"]}
+        "C04": ["C05c", "C15d"], "C06": ["P1"], "C03": ["P1"], "C11": ["C02Q", "C10d"], "C17": ["P2", "P2b", "P2d", "P2e", "P2f", "L2"], "C13": ["C10b", "P2", "P2c"], "C19": ["L1", "L2"], "C14": ["P2d", "P1c", "P2e"], "C02": ["L1"]}
 
 def property_modules(prop, lean_dir):
     """Properties/Cxx.lean plus companion modules Properties/Cxx<letters>.lean (e.g. C02P, C05b) —
